@@ -40,6 +40,8 @@ def eval_case(case, want, dtypes=("float64", "float32"), variant=0):
 
     def add(clause, detail, **kw):
         prop = CLAUSES[clause]
+        if variant == 3 and prop != "C19":
+            return  # off the lattice: only float32 against float64 is meaningful
         if prop in want or prop == "drift":
             d = {"clause": clause, "prop": prop, "detail": detail, "fam": par["fam"], "tails": par["tails"], "par": jsonable_par(par), "desc": describe(par)}
             if variant:
@@ -53,6 +55,7 @@ def eval_case(case, want, dtypes=("float64", "float32"), variant=0):
     outs = [(x, o) for x, o in pts if not (left <= float(x) <= right)]
     K = len(par["ws"])
     res = {}
+    res_inv = {}
     for dtn in dtypes:
         dt = getattr(torch, dtn)
         rs = RealSpline(par, dtn, variant)
@@ -191,6 +194,7 @@ def eval_case(case, want, dtypes=("float64", "float32"), variant=0):
                 if dtn == "float32":
                     add("f32_raises", "float32 inverse raises on in-range inputs: %s" % oci, **tag)
             else:
+                res_inv[dtn] = (xr, li)
                 if xr.dtype != dt or li.dtype != dt:
                     add("dtype_not_preserved", "inverse returns dtypes %s / %s for %s inputs" % (xr.dtype, li.dtype, dtn), **tag)
                 if not bool(torch.isfinite(xr).all() and torch.isfinite(li).all()):
@@ -244,6 +248,15 @@ def eval_case(case, want, dtypes=("float64", "float32"), variant=0):
         if bool(keep.any()) and float((l32 - l64).abs()[keep].max()) > 2e-3:
             i = int(((l32 - l64).abs() * keep).argmax())
             add("f32_vs_f64", "logabsdet(%s): float32 %.9g vs float64 %.9g" % (ins[i][0], float(l32[i]), float(l64[i])), dtype="float32")
+    if "C19" in want and "float32" in res_inv and "float64" in res_inv:
+        x32, x64 = res_inv["float32"][0].double(), res_inv["float64"][0]
+        ed = torch.tensor([float(o["d"]) for _, o in ins], dtype=torch.float64)
+        scale = max(1.0, abs(top), abs(bottom), abs(left), abs(right))
+        # dx = dy / d, and the bin-search margin (1e-6 in box units) enters at the knots
+        tolx = (64 * 2.0 ** -23 * scale + 2e-6 * (right - left)) * (1.0 + 1.0 / ed.min().item())
+        if bool(torch.isfinite(x32).all() and torch.isfinite(x64).all()) and float((x32 - x64).abs().max()) > tolx:
+            i = int((x32 - x64).abs().argmax())
+            add("f32_vs_f64", "inverse(%s): float32 %.9g vs float64 %.9g" % (ins[i][1]["y"], float(x32[i]), float(x64[i])), dtype="float32")
     return out
 
 
@@ -266,6 +279,8 @@ def spline_task(task):
             code = sum(c["par"]["ws"]) + len(c["pts"]) + (3 if c["par"]["tails"] else 0)
             if (hq and len(set(hq)) == 1) or code % 4 == 0:
                 f += eval_case(c, want, variant=1 + code % 2)
+            if hq and len(set(hq)) == 1 and "C19" in want:
+                f += eval_case(c, {"C19"}, variant=3)
         except Exception as e:  # noqa
             import traceback
 
